@@ -313,6 +313,7 @@ CONFIG = {
         "jobs": [bufstep("C04", 24000, 800000),
                  {"name": "bulk", "test": "TestC04Bulk", "checks": {"quick": 600, "thorough": 30000}, "shards": {"quick": 4, "thorough": 8}},
                  {"name": "probe", "test": "TestC04Probe", "checks": {"quick": 160, "thorough": 4000}, "shards": {"quick": 8, "thorough": 16}, "shrinktime": "10s"},
+                 {"name": "birth", "test": "TestC04Birth", "checks": {"quick": 3000, "thorough": 300000}, "shards": {"quick": 4, "thorough": 16}},
                  {"name": "probe_go_default", "go": "default", "test": "TestC04Probe", "checks": {"quick": 80, "thorough": 2000}, "shards": {"quick": 8, "thorough": 16}, "shrinktime": "10s"}],
     },
     "C05": {
